@@ -272,10 +272,15 @@ fn craft(ctx: &mut Ctx, pki: &Pki, template: &Mdoc, alg: DigestAlgorithm, dup_id
     let n_core = rng.gen_range(1..=CORE_IDS.len());
     let mut core: Vec<String> = CORE_IDS[..n_core].iter().map(|s| s.to_string()).collect();
     if dup_ids { let d = core[rng.gen_range(0..core.len())].clone(); core.push(d); }
+    // every other crafted document: identifiers that contain the dotted tail of the OTHER namespace's name
+    // (`org.iso.18013.5.1` / `aamva.sex` next to `org.iso.18013.5.1.aamva` / `sex`)
+    static CRAFTED: std::sync::atomic::AtomicUsize = std::sync::atomic::AtomicUsize::new(0);
+    let dotted = CRAFTED.fetch_add(1, std::sync::atomic::Ordering::Relaxed) % 2 == 0;
+    if dotted { core.push("aamva.sex".to_string()); core.push("aamva".to_string()); ctx.count("crafted:dotted-identifiers"); }
     core.shuffle(&mut rng);
     plan.push((NS.to_string(), core));
-    if rng.gen_bool(0.6) {
-        let n = rng.gen_range(1..=AAMVA_IDS.len());
+    if dotted || rng.gen_bool(0.6) {
+        let n = if dotted { AAMVA_IDS.len() } else { rng.gen_range(1..=AAMVA_IDS.len()) };
         plan.push((NS_AAMVA.to_string(), AAMVA_IDS[..n].iter().map(|s| s.to_string()).collect()));
     }
     plan.shuffle(&mut rng);
@@ -344,8 +349,10 @@ fn stream_tag24(ctx: &mut Ctx) {
         let wild = rng.gen_bool(0.8);
         let digest = *[0i64, 1, 23, 24, 255, 65536, 2147483647].choose(&mut rng).unwrap();
         let extras = rng.gen_range(0..3);
-        let id = format!("elem{}{}", i % 7, gen_text(&mut rng));
-        let gv = gen_value(&mut rng, 2);
+        let mut id = format!("elem{}{}", i % 7, gen_text(&mut rng));
+        let mut gv = gen_value(&mut rng, 2);
+        // every 20th item: an age attestation whose value is NOT a boolean (0, 1, "true", null): the view is what the bytes say
+        if i % 20 == 3 { id = format!("age_over_{}", [18, 21, 65, 0, 99][(i / 20 % 5) as usize]); gv = [int(1), int(0), text("true"), Value::Null, int(1)][(i / 20 % 5) as usize].clone(); ctx.count("item:age-attestation-not-boolean"); }
         let mut v = gen_item_value(&mut rng, digest, &id, gv, extras);
         // every 20th item: one more unknown member whose NAME is long (65 … 4096 bytes, the sizes in turn)
         if i % 20 == 7 {
